@@ -91,7 +91,8 @@ def asmatrix(ctx):
                              f"each coefficient on the matrix at the canonical position of its blade: {want}", fn)
 
 
-@rule("C18.frommatrix", props=["C18"], min_instances=1, mutants=[
+@rule("C18.frommatrix", props=["C18"], min_instances=3, mutants=[
+    ("keys rebuilt by (grade, binary key) instead of the canonical order", ("multivector", "        obj = cls(algebra=algebra, values=matrix[..., 0])\n        return obj", "        keys = tuple(sorted(range(len(algebra)), key=lambda k: (bin(k).count('1'), k)))\n        return cls.fromkeysvalues(algebra, keys=keys, values=matrix[..., 0])")),
     ("frommatrix reads the first row", ("multivector", "        obj = cls(algebra=algebra, values=matrix[..., 0])", "        obj = cls(algebra=algebra, values=matrix[0, ...])")),
 ])
 def frommatrix(ctx):
@@ -99,44 +100,48 @@ def frommatrix(ctx):
     repo = ctx.repo
     q = "multivector.MultiVector.frommatrix"
     fn = ctx.func(q)
-    alg = rep_algebra(3)
-    canon = tuple(alg.attrs["canon2bin"].values())
-    seen = {}
+    from .c02 import BASIS_2DPGA
+    # in three dimensions the canonical order happens to be (grade, binary key) order; in four it is not, and a custom basis
+    # has an order of its own
+    for label, alg in (("default 3-D", rep_algebra(3)), ("default 4-D", rep_algebra(4)), ("custom basis 2DPGA-like", rep_algebra(3, basis=BASIS_2DPGA))):
+        c = q if label == "default 3-D" else f"{q}#{label}"
+        canon = tuple(alg.attrs["canon2bin"].values())
+        seen = {}
 
-    def getitem(idx):
-        seen["idx"] = idx
-        col = Obj("column", {"fmt": "COLUMN"}, {"__len__": lambda: 8, "__iter__": lambda: [Val(f"c{i}") for i in range(8)]})
-        return col
-    matrix = Obj("matrix", {"fmt": "MATRIX"}, getitem=getitem)
-    it = make_interp(repo)
-    it.algebra = alg
-    prev = it.class_call_hook
+        def getitem(idx):
+            seen["idx"] = idx
+            col = Obj("column", {"fmt": "COLUMN"}, {"__len__": lambda: len(canon), "__iter__": lambda: [Val(f"c{i}") for i in range(len(canon))]})
+            return col
+        matrix = Obj("matrix", {"fmt": "MATRIX"}, getitem=getitem)
+        it = make_interp(repo)
+        it.algebra = alg
+        prev = it.class_call_hook
 
-    def cch(name, args, kwargs):
-        if name == "MultiVector":
-            new = it.repo.func("multivector.MultiVector.__new__")
-            return it.call_function(new, [ClassRef("MultiVector")] + list(args), kwargs, {}, "multivector")
-        return prev(name, args, kwargs)
-    it.class_call_hook = cch
-    try:
-        out = it.run(q, [ClassRef("MultiVector"), alg, matrix])
-    except NoValue as exc:
-        raise Unknown(q, str(exc), fn)
-    if out[0] == "raise":
-        ctx.violation(q, f"raises {out[1]}", fn)
-        return
-    idx = seen.get("idx")
-    ok_idx = isinstance(idx, tuple) and len(idx) == 2 and idx[0] is Ellipsis and idx[1] == 0
-    res = out[1]
-    keys = tuple(res.attrs.get("_keys", ())) if isinstance(res, Obj) else None
-    vals = res.attrs.get("_values") if isinstance(res, Obj) else None
-    if ok_idx and keys == canon and isinstance(vals, Obj) and vals.kind == "column":
-        ctx.ok(q, fn, reads="matrix[..., 0]", keys="canonical")
-    elif not ok_idx:
-        ctx.violation(q, f"frommatrix reads matrix[{idx!r}] instead of the first column matrix[..., 0] "
-                         f"(asmatrix puts the coefficients, in canonical order, in the first column)", fn)
-    else:
-        ctx.violation(q, f"the first column is paired with keys {keys}, expected the canonical key tuple {canon}", fn)
+        def cch(name, args, kwargs):
+            if name == "MultiVector":
+                new = it.repo.func("multivector.MultiVector.__new__")
+                return it.call_function(new, [ClassRef("MultiVector")] + list(args), kwargs, {}, "multivector")
+            return prev(name, args, kwargs)
+        it.class_call_hook = cch
+        try:
+            out = it.run(q, [ClassRef("MultiVector"), alg, matrix])
+        except NoValue as exc:
+            raise Unknown(c, str(exc), fn)
+        if out[0] == "raise":
+            ctx.violation(c, f"raises {out[1]}", fn)
+            continue
+        idx = seen.get("idx")
+        ok_idx = isinstance(idx, tuple) and len(idx) == 2 and idx[0] is Ellipsis and idx[1] == 0
+        res = out[1]
+        keys = tuple(res.attrs.get("_keys", ())) if isinstance(res, Obj) else None
+        vals = res.attrs.get("_values") if isinstance(res, Obj) else None
+        if ok_idx and keys == canon and isinstance(vals, Obj) and vals.kind == "column":
+            ctx.ok(c, fn, reads="matrix[..., 0]", keys="canonical")
+        elif not ok_idx:
+            ctx.violation(c, f"frommatrix reads matrix[{idx!r}] instead of the first column matrix[..., 0] "
+                             f"(asmatrix puts the coefficients, in canonical order, in the first column)", fn)
+        else:
+            ctx.violation(c, f"{label}: the first column is paired with keys {keys}, expected the canonical key tuple {canon}", fn)
 
 
 # --------------------------------------------------------------------------- Kronecker construction
@@ -207,6 +212,30 @@ def first_column_gram(bases):
     return None
 
 
+NARROW_DTYPES = {"int8", "int16", "int32", "uint8", "uint16", "uint32", "float16", "float32", "bool", "bool_", "i1", "i2", "i4", "u1", "u2", "u4", "f2", "f4", "?"}
+
+
+def similar(base, ordering, dtype=None):
+    """O @ R @ O.T; an element type is remembered when the code casts the matrix."""
+    o = Obj("similar", {"base": base, "ordering": ordering, "dtype": dtype})
+
+    def astype(t, *a, **k):
+        name = t if isinstance(t, str) else t.attrs.get("name") if isinstance(t, Obj) and t.kind == "dtype" else getattr(t, "name", None)
+        if name is None:
+            raise NoValue(f"astype({t!r})")
+        return similar(base, ordering, name)
+    o.methods["astype"] = astype
+    return o
+
+
+def narrow_dtype_problem(objs):
+    for o in objs:
+        if isinstance(o, Obj) and o.kind == "similar" and o.attrs.get("dtype") in NARROW_DTYPES:
+            return (f"the matrices are cast to {o.attrs['dtype']}: asmatrix() multiplies them by the coefficients and sums, so with plain int coefficients "
+                    f"(or products of matrices) beyond the range of that type the entries wrap around or raise - the representation is not linear any more")
+    return None
+
+
 def numpy_standin():
     def array(x, *a, **k):
         if isinstance(x, (list, tuple)) and len(x) == 2 and all(isinstance(r, (list, tuple)) and len(r) == 2 for r in x):
@@ -230,19 +259,22 @@ def numpy_standin():
         def binop(op, other, refl):
             if op == "MatMult" and not refl and isinstance(other, Obj) and other.kind == "kron":
                 r = Obj("OR", {"base": other})
-                r.methods["binop"] = lambda op2, other2, refl2: (Obj("similar", {"base": other, "ordering": o}) if op2 == "MatMult" and other2 is t and not refl2 else Unk("similarity"))
+                r.methods["binop"] = lambda op2, other2, refl2: (similar(other, o) if op2 == "MatMult" and other2 is t and not refl2 else Unk("similarity"))
                 return r
             return Unk("ordering arith")
         o.methods["binop"] = binop
         return o
-    return Obj("module:numpy", {"array": PyFunc(array, "np.array", True), "kron": PyFunc(kron, "np.kron", True),
-                                "vstack": PyFunc(vstack, "np.vstack", True)})
+    table = {"array": PyFunc(array, "np.array", True), "kron": PyFunc(kron, "np.kron", True), "vstack": PyFunc(vstack, "np.vstack", True)}
+    for n in ("int8", "int16", "int32", "int64", "uint8", "float16", "float32", "float64", "bool_", "complex128", "intp"):
+        table[n] = Obj("dtype", {"name": n, "fmt": n})
+    return Obj("module:numpy", table)
 
 
 SIGNATURES = {"[+,+,+]": [1, 1, 1], "[0,+,-]": [0, 1, -1], "[-,0,+,+]": [-1, 0, 1, 1], "[+,-]": [1, -1], "[0,0,+]": [0, 0, 1]}
 
 
 @rule("C18.kronecker", props=["C18"], min_instances=5, mutants=[
+    ("basis matrices stored as int8", ("matrixreps", "    return [O @ Ri @ O.T for Ri in Rs]", "    return [(O @ Ri @ O.T).astype(np.int8) for Ri in Rs]")),
     ("negative generator literal squares to +1", ("matrixreps", "N2 = np.array([[0,1], [-1,0]])", "N2 = np.array([[0,1], [1,0]])")),
     ("trailing factors are identities (generators commute)", ("matrixreps", "        mats.extend([Ip for _ in range(d - i - 1)])", "        mats.extend([I for _ in range(d - i - 1)])")),
     ("null generators get the positive matrix", ("matrixreps", "            if s == 0:\n                Ss.append(SsR.pop(0))", "            if s == 0:\n                Ss.append(SsP.pop(0) if SsP else SsR.pop(0))")),
@@ -274,6 +306,8 @@ def kronecker(ctx):
         if any(b is None for b in bases):
             raise Unknown(c, "results are not similarity transforms O @ R @ O.T of Kronecker products", fn)
         problems = []
+        if narrow_dtype_problem(out[1]):
+            problems.append(narrow_dtype_problem(out[1]))
         if len(bases) != 2 ** d:
             problems.append(f"{len(bases)} matrices for {2 ** d} blades")
         ident = kron_obj([((1, 0), (0, 1))] * d)
@@ -367,6 +401,9 @@ def matrix_basis(ctx):
         if not isinstance(res, (list, tuple)) or not all(isinstance(o, Obj) and o.kind == "similar" for o in res):
             raise Unknown(c, f"matrix_basis is not a list of similarity transforms O @ R @ O.T of Kronecker products: {str(res)[:80]}", fn)
         bases = [o.attrs["base"] for o in res]
+        if narrow_dtype_problem(res):
+            ctx.violation(c, f"{label}: " + narrow_dtype_problem(res), fn)
+            continue
         names = list(alg.attrs["canon2bin"])
         d = alg.attrs["d"]
         sig = list(alg.attrs["signature"])
